@@ -75,7 +75,7 @@ def c12(ctx, replay):
     if replay is not None:
         write_lines(cases_file, replay_cases(replay))
     else:
-        cfgs = ["MC_Solvers.cfg", "MC_Solvers_wide.cfg"]
+        cfgs = ["MC_Solvers.cfg", "MC_Solvers_wide.cfg", "MC_Solvers_chain.cfg"]
         if thorough:
             cfgs += ["MC_Solvers_thorough.cfg", "MC_Solvers_deep.cfg", "MC_Solvers_wide_thorough.cfg"]
         files = _cfgs(ctx, "MC_Solvers", cfgs, 3000)
